@@ -41,6 +41,7 @@ type OpSpec struct {
 	Key     uint64   `json:"key,omitempty"`
 	Body    string   `json:"body,omitempty"`
 	NoUser  bool     `json:"nouser,omitempty"`
+	SameUser bool    `json:"sameuser,omitempty"` // the u= of the previous request (else every request has its own)
 	Conds   []string `json:"conds,omitempty"`
 	HasCond bool     `json:"hascond,omitempty"`
 	Replace bool     `json:"replace,omitempty"`
@@ -466,6 +467,7 @@ func queryObjs(q string) []map[string]interface{} {
 
 type runner struct {
 	t        *table
+	lastUser string
 	target   string // the version the current request goes to
 	uuid     string // head of master
 	parent   string
@@ -630,8 +632,13 @@ func (r *runner) params(op OpSpec, user string) string {
 func (r *runner) exec(op OpSpec) string {
 	r.nreq++
 	user := fmt.Sprintf("u%d", r.nreq)
+	if op.SameUser && r.lastUser != "" {
+		user = r.lastUser
+	}
 	if op.NoUser {
 		user = ""
+	} else {
+		r.lastUser = user
 	}
 	t := r.t
 	var term, cls, back string
